@@ -259,7 +259,9 @@ extern "C" int LLVMFuzzerTestOneInput(const uint8_t *data, size_t size)
 	  id_ok = true;
 	  for (const DataField& j : datas)
 	    {
-	      if (j.deleted || j.size != s.data.size() || j.data != s.data)
+	      // (a control record with a correct CRC still satisfies the property: only damaged or misaddressed
+	      // data is forbidden)
+	      if (j.size != s.data.size() || j.data != s.data)
 		continue;
 	      data_ok = true;
 	      if (j.pos <= i.pos)
@@ -285,7 +287,7 @@ extern "C" int LLVMFuzzerTestOneInput(const uint8_t *data, size_t size)
       if (!data_ok)
 	{
 	  for (const DataField& j : datas)
-	    if (!j.deleted && j.data == s.data)
+	    if (j.data == s.data)
 	      data_ok = true;
 	}
       if (!data_ok)
